@@ -77,6 +77,7 @@ FirstPkt(o, h) == o.wire[K(h)][1]
 Rules(e, n) ==
     LET o == e.obs IN
     (IF Cardinality({h \in 1..n : Live(o, h)}) > MaxClients THEN {"C35.limit-exceeded"} ELSE {})
+    \cup (IF e.got = "panic" THEN {IF e.h = 0 THEN "panic.close" ELSE "panic.handler"} ELSE {})
     \cup (IF \E h \in 1..n : \E k \in 1..Len(o.wire[K(h)]) :
                /\ o.wire[K(h)][k] \notin {"CONNACK0", "CONNACK1", "PUBLISH", "SUBACK", "DISC8E", "DISC8B", "DISC00"}
                /\ o.wire[K(h)][k] # (IF cfg[h].ver = 5 THEN "CONNACKFAIL89" ELSE "CONNACKFAIL03")
